@@ -246,6 +246,15 @@ Definition ll_sky_build (F : fcrs S) (perm : list nat) : mres sky_out :=
          for(int k = ptr[j], i = j - ptr[j+1] + k; k < ptr[j+1]; ++k, ++i) y[i] -= U[k] * y[j];
      for(int i = 0; i < n; ++i) x[perm[i]] = y[i];
    returns (x, y). *)
+(* for(int k = ptr[i], j = i - ptr[i+1] + k; k < ptr[i+1]; ++k, ++j) sum -= L[k] * y[j];
+   p0 = ptr[i], p1 = ptr[i+1]; trip count max(0, p1 - p0) *)
+Definition k_fwd_sum (L y : marr S) (p0 p1 : Z) (i : nat) (sum0 : S) : mres S :=
+  let j0 := (zn i - p1 + p0)%Z in
+  mfor 0 (Z.to_nat (p1 - p0)) (fun t s =>
+    l <-- mrdz L (p0 + zn t)%Z ;;
+    yj <-- mrdz y (j0 + zn t)%Z ;;
+    Done (s - l * yj)) sum0.
+
 Definition k_forward (n : nat) (perm : marr nat) (ptr : marr Z) (L D : marr S) (rhs : list S)
                      (y : marr S) : mres (marr S) :=
   mfor 0 n (fun i y =>
@@ -253,25 +262,26 @@ Definition k_forward (n : nat) (perm : marr nat) (ptr : marr Z) (L D : marr S) (
     sum0 <-- ird rhs pi ;;
     p0 <-- mrd ptr i ;;
     p1 <-- mrd ptr (i + 1) ;;
-    let j0 := (zn i - p1 + p0)%Z in
-    sum <-- mfor 0 (Z.to_nat (p1 - p0)) (fun t s =>
-              l <-- mrdz L (p0 + zn t)%Z ;;
-              yj <-- mrdz y (j0 + zn t)%Z ;;
-              Done (s - l * yj)) sum0 ;;
+    sum <-- k_fwd_sum L y p0 p1 i sum0 ;;
     d <-- mrd D i ;;
     mwr y i (d * sum)) y.
 
+(* for(int k = ptr[j], i = j - ptr[j+1] + k; k < ptr[j+1]; ++k, ++i) y[i] -= U[k] * y[j]; *)
+Definition k_bwd_col (U : marr S) (p0 p1 j : Z) (y : marr S) : mres (marr S) :=
+  let i0 := (j - p1 + p0)%Z in
+  mfor 0 (Z.to_nat (p1 - p0)) (fun t y =>
+    yi <-- mrdz y (i0 + zn t)%Z ;;
+    u <-- mrdz U (p0 + zn t)%Z ;;
+    yj <-- mrdz y j ;;
+    mwrz y (i0 + zn t)%Z (yi - u * yj)) y.
+
+(* j = n - 1 - t *)
 Definition k_backward (n : nat) (ptr : marr Z) (U : marr S) (y : marr S) : mres (marr S) :=
   mfor 0 n (fun t y =>
     let j := (zn n - 1 - zn t)%Z in
     p0 <-- mrdz ptr j ;;
     p1 <-- mrdz ptr (j + 1)%Z ;;
-    let i0 := (j - p1 + p0)%Z in
-    mfor 0 (Z.to_nat (p1 - p0)) (fun t y =>
-      yi <-- mrdz y (i0 + zn t)%Z ;;
-      u <-- mrdz U (p0 + zn t)%Z ;;
-      yj <-- mrdz y j ;;
-      mwrz y (i0 + zn t)%Z (yi - u * yj)) y) y.
+    k_bwd_col U p0 p1 j y) y.
 
 Definition k_scatter (n : nat) (perm : marr nat) (y x : marr S) : mres (marr S) :=
   mfor 0 n (fun i x =>
